@@ -32,6 +32,7 @@ type faultPlan struct {
 	End   string          `json:"end,omitempty"` // fin | rst | timeout | werr
 	Cut   int             `json:"cut,omitempty"`
 	WFail int64           `json:"wfail,omitempty"`
+	SlowTake bool         `json:"slow_client,omitempty"` // the client lets a quarter of Slow pass after every piece it takes
 	Slow  time.Duration   `json:"slow_storage,omitempty"` // every open / read of the storage takes this long (virtual time): work started on behalf of a connection may still be under way when it ends
 }
 
@@ -132,6 +133,9 @@ func c13Run(t *testing.T, root string, sc c13Scenario, mk func() *Model, plan fa
 				for {
 					x := c.Take()
 					res.stream = append(res.stream, x...)
+					if plan.SlowTake && len(x) > 0 {
+						time.Sleep(plan.Slow / 4)
+					}
 					if int64(len(res.stream)) >= plan.WFail {
 						c.Rst()
 						synctest.Wait()
@@ -328,7 +332,7 @@ func c13PrefixOK(m *Model, rq Req, resp []byte) bool {
 func TestC13(t *testing.T) {
 	r := NewReporter(t)
 	defer r.Done()
-	r.Rule("13 scenarios (plain reads with the default, a 1000-byte and no pooled transfer buffer, generated image DVD/PS3 with lazily opened members, redump with adjacent and with both keys, 3k3y, directory enumeration with symlinks, create/write/delete, dir-size, CD reads); per scenario: fault-free run numbers the N leaf filesystem operations, then an injected error (EIO, EINTR, EAGAIN) at every index, a legal short read (1 byte / half) at every Read, a partial write (half, then ENOSPC) at every Write, a short read followed by EINTR/EAGAIN at the next operations, thorough: every pair of deviations of any two kinds (i<j, deviation bound 2); and connection endings FIN / RST / idle timeout at every script byte position class write failure at every response byte position class, and a reset by a slowly receiving client (4096-byte send buffer, server blocked in Write) at every response byte position class, also on slow storage (every open and read takes 40 ms of virtual time, so work for the connection is still under way when it ends); 2700 requests on one connection and 400 short connections with four kinds of ending on one server; oracles: handle ledger empty after the connection ended, connection closed, fresh connection served, responses = model answer | failure code | correct prefix + disconnect; distinct by (scenario, deviation)")
+	r.Rule("14 scenarios (plain reads with the default, a 1000-byte and no pooled transfer buffer, generated image DVD/PS3 with lazily opened members, redump with adjacent and with both keys, 3k3y, directory enumeration with symlinks, create/write/delete, dir-size, CD reads); per scenario: fault-free run numbers the N leaf filesystem operations, then an injected error (EIO, EINTR, EAGAIN) at every index, a legal short read (1 byte / half) at every Read, a partial write (half, then ENOSPC) at every Write, a short read followed by EINTR/EAGAIN at the next operations, thorough: every pair of deviations of any two kinds (i<j, deviation bound 2); and connection endings FIN / RST / idle timeout at every script byte position class write failure at every response byte position class, and a reset by a slowly receiving client (4096-byte send buffer, server blocked in Write) at every response byte position class, also on slow storage (every open and read takes 40 ms of virtual time, so work for the connection is still under way when it ends; and with a client that takes 4096 bytes every 10 ms, reset after every 4096 bytes of a large answer); 2700 requests on one connection and 400 short connections with four kinds of ending on one server; oracles: handle ledger empty after the connection ended, connection closed, fresh connection served, responses = model answer | failure code | correct prefix + disconnect; distinct by (scenario, deviation)")
 	w, objs := buildC02World(t, r)
 	defer w.Cleanup()
 	// extras: both-keys image, directory with symlinks, writable dir, CD image
@@ -378,7 +382,9 @@ func TestC13(t *testing.T) {
 		{name: "plain-buf1000", buf: 1000, reqs: []Req{mkReq(opOpenFile, "/plain/f65537.bin"), rdcReq(10, 3500), rdReq(5, 2500), rdcReq(65000, 537), mkReq(opOpenFile, "/cd.bin"), cdReq(1, 2)}},
 		{name: "plain-unpooled", buf: -1, reqs: []Req{mkReq(opOpenFile, "/plain/f65537.bin"), rdcReq(10, 40000), rdReq(5, 40000), mkReq(opOpenFile, "/cd.bin"), cdReq(1, 2)}},
 		{name: "upload-buf1000", allow: true, buf: 1000, reqs: []Req{mkReq(opCreateFile, "/w/n.bin"), wrReq(patBytes(3, 0, 3500)), wrReq([]byte("abc"))}},
-		{name: "image-dvd-buf1000", buf: 1000, reqs: []Req{mkReq(opOpenFile, "/***DVD***/game"), rdcReq(imgSize-70*2048, 20*2048), rdReq(imgSize-30*2048, 30*2048)}},
+		// one large transfer over the metadata and every member file of the image (members are opened while it runs)
+		{name: "image-dvd-members", noF: true /* volume timestamps follow the clock */, reqs: []Req{mkReq(opOpenFile, "/***DVD***/game"), rdcReq(0, 150000)}},
+		{name: "image-dvd-buf1000", noF: true, buf: 1000, reqs: []Req{mkReq(opOpenFile, "/***DVD***/game"), rdcReq(0, 120000), rdReq(imgSize-30*2048, 30*2048)}},
 		{name: "dirsize-cd", reqs: []Req{mkReq(opGetDirSize, "/game"), mkReq(opGetDirSize, "/"), mkReq(opOpenFile, "/cd.bin"), cdReq(1, 2), cdReq(16, 1)}},
 	}
 	idx := 0
@@ -401,7 +407,7 @@ func TestC13(t *testing.T) {
 		judge := func(p faultPlan, res *c13Result, kind string) {
 			r.Transition(int64(len(res.steps)) + 1)
 			r.Eval(1)
-			key := sprintf("%s|%v|%s|%d|%d|%v", sc.name, p.Desc, p.End, p.Cut, p.WFail, p.Slow)
+			key := sprintf("%s|%v|%s|%d|%d|%v|%v", sc.name, p.Desc, p.End, p.Cut, p.WFail, p.Slow, p.SlowTake)
 			r.State(key)
 			r.Nontrivial(key)
 			for _, st := range res.steps {
@@ -571,6 +577,26 @@ func TestC13(t *testing.T) {
 			// the same on slow storage: the connection goes away while an open or read is still in progress
 			if wf > 4096 {
 				ps := faultPlan{End: "rstw", WFail: wf, Slow: 40 * time.Millisecond}
+				res := c13Run(t, w.Root, sc, mk, ps, resetW)
+				if res.why == "" && !sc.noF {
+					n := min(len(res.stream), len(base.stream))
+					if len(res.stream) > len(base.stream) || !bytes.Equal(res.stream[:n], base.stream[:n]) {
+						res.why, res.sig = "bytes received before the reset differ from the fault-free stream: "+describeDiff(res.stream[:n], base.stream[:n]), "rstw-slow-bytes"
+					}
+				}
+				judge(ps, res, "end")
+			}
+		}
+		// slow storage and a client that takes its bytes slowly (4096 bytes every 10 ms of virtual time), reset after every
+		// 4096 bytes of the answers: the connection ends while the server - or whatever it started for this connection -
+		// is inside each of its storage operations in turn (an open of the next member file, a read, ...)
+		if total > 20000 {
+			for k := int64(1); k <= min(total/4096, 48); k++ {
+				idx++
+				if !r.Mine(idx) {
+					continue
+				}
+				ps := faultPlan{End: "rstw", WFail: k*4096 + 1, Slow: 40 * time.Millisecond, SlowTake: true}
 				res := c13Run(t, w.Root, sc, mk, ps, resetW)
 				if res.why == "" && !sc.noF {
 					n := min(len(res.stream), len(base.stream))
